@@ -9,6 +9,7 @@ Streams (all derived from VERIF_SEED):
              (frame sets, run decoding, both round trips) — written from the statement, not the model
 """
 import ast
+import collections
 import inspect
 import json
 import math
@@ -119,8 +120,42 @@ def build_seq(case):
     return ns
 
 
+# Purity of every call the harness makes (all streams, all oracles): the three functions are described as functions of
+# their inputs, so a call must leave its arguments as they were - the NoteSequence byte for byte in deterministic
+# serialisation, every numpy array byte for byte -, also when it raises.  A change is recorded with the case as replay.
+IMPURE = []
+
+
+def _snap(a):
+    if isinstance(a, np.ndarray):
+        return (a.dtype.str, a.shape, a.tobytes())
+    if hasattr(a, 'SerializeToString'):
+        return a.SerializeToString(deterministic=True)
+    return None
+
+
+def pure_call(case, fn, *args, **kwargs):
+    allargs = list(args) + [kwargs[k] for k in sorted(kwargs)]
+    names = ['argument #%d' % (i + 1) for i in range(len(args))] + sorted(kwargs)
+    before = [_snap(a) for a in allargs]
+    try:
+        out = fn(*args, **kwargs)
+    finally:
+        for nm, a, b in zip(names, allargs, before):
+            if b is not None and _snap(a) != b and len(IMPURE) < 20:
+                IMPURE.append(('%s changed its %s (%s) in place' % (fn.__name__, nm, type(a).__name__), case))
+    for nm, a in zip(names, allargs):
+        if isinstance(a, np.ndarray) and a.size:
+            for r in (out if isinstance(out, tuple) else [out]):
+                if isinstance(r, np.ndarray) and (r is a or np.shares_memory(r, a)) and len(IMPURE) < 20:
+                    IMPURE.append(('%s returned an array sharing memory with its %s' % (fn.__name__, nm), case))
+        if out is a and len(IMPURE) < 20:
+            IMPURE.append(('%s returned its %s itself' % (fn.__name__, nm), case))
+    return out
+
+
 def enc_call(sl, case):
-    return sl.sequence_to_pianoroll(build_seq(case), case['fps'], case['min_pitch'], case['max_pitch'], **enc_kw(case))
+    return pure_call(case, sl.sequence_to_pianoroll, build_seq(case), case['fps'], case['min_pitch'], case['max_pitch'], **enc_kw(case))
 
 
 def enc_line(pr):
@@ -188,7 +223,7 @@ def notes_line(ns):
 def dec_call(sl, case):
     fr, on, off, v = dec_arrays(case)
     kw = dec_kw(case)
-    return sl.pianoroll_to_note_sequence(fr, case['fps'], kw['min_duration_ms'], velocity=kw['velocity'],
+    return pure_call(case, sl.pianoroll_to_note_sequence, fr, case['fps'], kw['min_duration_ms'], velocity=kw['velocity'],
                                          instrument=case.get('instrument', 0), program=case.get('program', 0),
                                          min_midi_pitch=kw['min_midi_pitch'], onset_predictions=on,
                                          offset_predictions=off, velocity_values=v,
@@ -214,7 +249,7 @@ def ons_request(case):
 def ons_call(sl, case):
     fr, _, _, v = dec_arrays(case)
     kw = dec_kw(case)
-    return sl.pianoroll_onsets_to_note_sequence(fr, case['fps'], note_duration_seconds=case['dur'],
+    return pure_call(case, sl.pianoroll_onsets_to_note_sequence, fr, case['fps'], note_duration_seconds=case['dur'],
                                                 velocity=kw['velocity'], min_midi_pitch=kw['min_midi_pitch'],
                                                 velocity_values=v, velocity_scale=kw['velocity_scale'],
                                                 velocity_bias=kw['velocity_bias'])
@@ -391,6 +426,51 @@ def gen_enc_case(rng, malformed=False):
     return case, hist
 
 
+def gen_occ_case(rng):
+    """min_frame_occupancy_for_label: notes that begin inside frame a at the share fs, cover j frames completely and end
+    inside a later frame at the share fe - with fs / fe below, above and exactly at the threshold (and 1 - threshold)"""
+    fps = gen_fps(rng, extra=0.0)
+    thr = rng.choice([0.5, 0.5, 0.25, 0.75, 1.0, 0.125, 0.9])
+    minp = rng.choice([60, 21])
+    w = rng.choice([1, 2, 4])
+    shares = [0.0, 0.125, 0.25, 0.375, 0.5, 0.625, 0.75, 0.875, thr, 1 - thr, nextafter_n(thr, 1), nextafter_n(thr, -1)]
+    notes, f = [], rng.choice([0, 0, 6, 21, 100])
+    for _ in range(rng.choice([1, 1, 2, 4])):
+        fs, fe, j = rng.choice(shares), rng.choice(shares), rng.choice([0, 1, 1, 1, 2, 5])
+        a, b = (f + fs) / fps, (f + j + 1 + fe) / fps
+        if rng.random() < 0.15:
+            b = (f + max(fs, fe)) / fps                     # ends inside its first frame
+        notes.append([minp + rng.randrange(w), rng.choice([1, 80, 127]), a, max(a, b)])
+        f += j + rng.choice([2, 3, 4])
+    total = max(n[3] for n in notes) + rng.choice([0, 1, 3]) / fps
+    kw = {'min_frame_occupancy_for_label': thr}
+    if rng.random() < 0.3:
+        kw.update(onset_mode='length_ms', onset_length_ms=rng.choice([1, 2, 3]) * 1000 / fps)
+    return ({'kind': 'enc', 'fps': fps, 'min_pitch': minp, 'max_pitch': minp + w - 1, 'kw': kw, 'total': total, 'notes': notes, 'ccs': []},
+            {'occupancy-scenario', 'kw:min_frame_occupancy_for_label'})
+
+
+def gen_onset_len_case(rng):
+    """onset_mode='length_ms': grid notes of k frames against an onset length of L frames (k <, =, > L; L = 0), with
+    delays of whole / half frames, so that the clamp to the note end decides the onset span"""
+    fps = gen_fps(rng, extra=0.0)
+    minp, w = rng.choice([60, 21]), rng.choice([1, 3])
+    L = rng.choice([0, 1, 2, 4, 8, 3])
+    notes, f = [], rng.choice([0, 3, 10, 40])
+    for _ in range(rng.choice([1, 2, 3])):
+        k = rng.choice([0, 1, 2, 3, 5, 12, L, L, max(0, L - 1), L + 1])
+        frac = rng.choice([0, 0, 0, 0.5, 0.25])
+        notes.append([minp + rng.randrange(w), rng.choice([1, 90, 127]), (f + frac) / fps, (f + frac + k) / fps])
+        f += k + rng.choice([1, 2, 9])
+    total = (f + rng.choice([0, 4])) / fps
+    total = max([total] + [n[3] for n in notes])
+    kw = {'onset_mode': 'length_ms', 'onset_length_ms': rng.choice([L * 1000 / fps, L * (1000 / fps), 1000 * (L * (1 / fps))])}
+    if rng.random() < 0.3:
+        kw['onset_delay_ms'] = rng.choice([1000 / fps, 500 / fps, -1000 / fps, 2000 / fps])
+    return ({'kind': 'enc', 'fps': fps, 'min_pitch': minp, 'max_pitch': minp + w - 1, 'kw': kw, 'total': total, 'notes': notes, 'ccs': []},
+            {'onset-length-scenario', 'kw:onset_mode', 'kw:onset_length_ms'})
+
+
 def gen_bool_matrix(rng, n, w, style=None):
     style = style or rng.choice(['runs', 'runs', 'dense', 'sparse', 'iid'])
     m = [[False] * w for _ in range(n)]
@@ -500,6 +580,39 @@ def gen_dec_case(rng, malformed=False):
     return case, hist
 
 
+def mindur_case(rng, fps, k, variant='nominal'):
+    """decoder case for the clause "drops only notes shorter than min_duration_ms": 16 pitch columns, each holding one
+    run of k frames at a different start frame (0..7 and eight later ones; a few columns k-1 / k+1 frames), and a
+    threshold that is EXACTLY the length of those runs: k*1000/fps, 1000*(k*(1/fps)), k*(1000/fps), the binary64
+    duration (e*fl - s*fl)*1000 of one of the runs, each also one ulp up / down."""
+    n = 64
+    w = 16
+    starts = list(range(8)) + [rng.randrange(8, max(9, n - k + 1)) for _ in range(8)]
+    frames = [[False] * w for _ in range(n)]
+    lens = []
+    for c, s0 in enumerate(starts):
+        kk = k
+        if variant != 'nominal' and rng.random() < 0.25:
+            kk = max(1, k + rng.choice([-1, 1]))
+        s0 = min(s0, n - kk)
+        lens.append((s0, kk))
+        for f in range(s0, s0 + kk):
+            frames[f][c] = True
+    fl = 1 / fps
+    if variant == 'nominal':
+        m = k * 1000 / fps
+    else:
+        s0, kk = rng.choice(lens)
+        m = rng.choice([k * 1000 / fps, 1000 * (k * fl), k * (1000 / fps), ((s0 + kk) * fl - s0 * fl) * 1000, (kk * fl) * 1000])
+        m = nextafter_n(m, rng.choice([0, 0, -1, 1, -2, 2]))
+        if float(m).is_integer() and rng.random() < 0.5:
+            m = int(m)
+    case = {'kind': 'dec', 'fps': fps, 'w': w, 'frames': frames, 'kw': {'min_duration_ms': m}}
+    if variant != 'nominal' and rng.random() < 0.3:
+        case['onsets'] = [[bool(frames[f][c]) and (f == 0 or not frames[f - 1][c]) for c in range(w)] for f in range(n)]
+    return case, {'min-duration==run-length:' + variant, 'fps:%s' % fps}
+
+
 def gen_ons_case(rng):
     fps = gen_fps(rng)
     n = rng.choice([0, 1, 2, 5, 16, 64])
@@ -539,6 +652,63 @@ def frame_options(x, lo):
     if abs(x - k) <= TOL * m:
         return {base, k}
     return {base}
+
+
+def _positions(x):
+    """exact frame position(s) the documented snap allows for `x`: itself; the nearest integer too inside the 1e-9
+    window; only the integer when x is within float noise of it"""
+    k = math.floor(x + F(1, 2))
+    m = max(F(1), abs(x))
+    if abs(x - k) <= NOISE * m:
+        return [F(k)]
+    if abs(x - k) <= TOL * m:
+        return [x, F(k)]
+    return [x]
+
+
+ENC_COVER = collections.Counter()
+
+
+def span_options(xs, xe, thr):
+    """the frame span(s) [first, last+1) a note / onset / interval at exact frame positions xs <= xe (xs >= 0) may be
+    given under min_frame_occupancy_for_label = thr, from the documentation: "a note must occupy at least this
+    percentage of a frame, for the frame to be given a label", every note fills at least one frame.
+      * first frame floor(xs): labelled iff the share floor(xs)+1-xs of it that lies after the start is >= thr, else the
+        span begins one frame later;
+      * fully covered frames are always labelled (thr <= 1);
+      * last frame ceil(xe)-1 when the note only covers the share xe-(ceil(xe)-1) of it: labelled iff that share >= thr.
+        Judged when the last frame is the one right after the (possibly moved) first frame.  For longer notes the code
+        measures `end_frames - start_frame - 1` (> 1), i.e. never removes the last frame - that differs from the
+        documented meaning, is not part of the property statement, and is left open here (both spans allowed; counted).
+    A share within float noise of thr allows both decisions.  thr = 0: floor / ceil / at least one frame."""
+    out = set()
+    for x0 in _positions(xs):
+        for x1 in _positions(xe):
+            a, E = math.floor(x0), math.ceil(x1)
+            if thr == 0:
+                out.add((a, max(E, a + 1)))
+                continue
+            occ_s = a + 1 - x0
+            near = abs(occ_s - thr) <= NOISE * max(1, abs(x0))
+            for sf in ({a, a + 1} if near else {a} if occ_s >= thr else {a + 1}):
+                l = E - 1
+                if l <= sf:
+                    out.add((sf, sf + 1))
+                    continue
+                occ_e = x1 - l
+                if abs(occ_e - thr) <= NOISE * max(1, abs(x1)):
+                    efs = {E, E - 1}
+                elif occ_e >= thr:
+                    efs = {E}
+                elif l == sf + 1:
+                    efs = {E - 1}
+                    ENC_COVER['occupancy: under-occupied last frame right after the first frame (judged)'] += 1
+                else:
+                    efs = {E, E - 1}
+                    ENC_COVER['occupancy: under-occupied last frame of a longer note (documentation and code differ; not judged)'] += 1
+                for ef in efs:
+                    out.add((sf, max(ef, sf + 1)))
+    return out
 
 
 def oracle_enc(sl, case):
@@ -601,24 +771,27 @@ def oracle_enc(sl, case):
                 f, c + minp, 'active' if act[f, c] else 'silent',
                 'a later note starts right after it' if act[f, c] else 'a note paints it and no later note blanks it'))
         return None
-    if not plain:
+    thr = F(kw['min_frame_occupancy_for_label'])
+    if not (kw['onset_overlap'] and not kw['add_blank_frame_before_onset']):
         return None
-    # active frames: union over in-range notes of [floor(s*fps), max(ceil(e*fps), start+1))
+    if thr > 0:
+        ENC_COVER['occupancy > 0: active frames judged'] += 1
+    # active frames: union over in-range notes of [floor(s*fps), max(ceil(e*fps), start+1)); with an occupancy
+    # threshold the first / last frame only when the note covers at least that share of it (span_options)
     must = np.zeros((rows, cols), dtype=bool)
     may = np.zeros((rows, cols), dtype=bool)
     for p, v, s, e in inrange:
-        so, eo = frame_options(F(s) * fps, True), frame_options(F(e) * fps, False)
-        spans = [(a, max(b, a + 1)) for a in so for b in eo]
+        spans = sorted(span_options(F(s) * fps, F(e) * fps, thr))
         lo, hi = max(a for a, _ in spans), min(b for _, b in spans)
         must[max(lo, 0):max(hi, 0), p - minp] = True
         may[max(min(a for a, _ in spans), 0):max(max(b for _, b in spans), 0), p - minp] = True
     act = pr.active > 0
     if (must & ~act).any():
         f, c = np.argwhere(must & ~act)[0]
-        return 'frame %d pitch %d not active although a note covers it' % (f, c + minp)
+        return 'frame %d pitch %d not active although a note covers it%s' % (f, c + minp, ' to at least min_frame_occupancy_for_label = %r' % kw['min_frame_occupancy_for_label'] if thr > 0 else '')
     if (act & ~may).any():
         f, c = np.argwhere(act & ~may)[0]
-        return 'frame %d pitch %d active although no note covers it' % (f, c + minp)
+        return 'frame %d pitch %d active although no note covers it%s' % (f, c + minp, ' to at least min_frame_occupancy_for_label = %r' % kw['min_frame_occupancy_for_label'] if thr > 0 else '')
     if ((pr.active != 0) & (pr.active != 1)).any():
         return 'active roll has a value other than 0/1'
     # velocities: in (0,1] exactly where active; value = velocity/max_velocity of a covering note
@@ -636,13 +809,44 @@ def oracle_enc(sl, case):
         if float(av[f, c]) not in cands:
             return 'velocity %r at frame %d pitch %d is not velocity/max_velocity of a note of that pitch' % (float(av[f, c]), f, c + minp)
     # onsets (window mode): [f0-w, f0+w] ∩ [0, rows) around the (delayed) first frame
-    if kw['onset_mode'] == 'window':
-        w = kw['onset_window']
-        d = F(float(kw['onset_delay_ms']) / 1000.0)
+    d = F(float(kw['onset_delay_ms']) / 1000.0)
+    if thr > 0 and any(F(s) + d < 0 for _, _, s, _ in inrange):
+        return None           # an onset before time 0 under an occupancy threshold: not specified anywhere
+    if kw['onset_mode'] == 'length_ms':
+        # "Length in milliseconds for the onset": the onset label covers the frames of the interval that begins at the
+        # (delayed) note start and lasts onset_length_ms, but never beyond the (delayed) end of the note - an onset is
+        # part of its note -, at least one frame, cut to the roll
+        L = F(float(kw['onset_length_ms']) / 1000.0)
         must[:] = False
         may[:] = False
         for p, v, s, e in inrange:
-            so = frame_options((F(s) + d) * fps, True)
+            os_, oe_ = F(s) + d, min(F(e) + d, F(s) + d + L)
+            spans = set(span_options(os_ * fps, oe_ * fps, thr))
+            if os_ < 0:
+                for x0 in _positions(os_ * fps):
+                    for x1 in _positions(oe_ * fps):
+                        spans.add((math.ceil(x0), max(math.ceil(x1), math.ceil(x0) + 1)))   # int() truncates toward zero
+            ENC_COVER['length_ms onset: %s' % ('note shorter than onset_length_ms (clamped to the note end)' if F(e) - F(s) < L else
+                                                'onset_length_ms == note length' if F(e) - F(s) == L else 'onset shorter than the note')] += 1
+            lo, hi = max(a for a, _ in spans), min(b for _, b in spans)
+            must[max(lo, 0):max(hi, 0), p - minp] = True
+            may[max(min(a for a, _ in spans), 0):max(max(b for _, b in spans), 0), p - minp] = True
+        on = pr.onsets > 0
+        if (must & ~on).any():
+            f, c = np.argwhere(must & ~on)[0]
+            return 'length_ms onset missing at frame %d pitch %d (onset_length_ms = %r)' % (f, c + minp, kw['onset_length_ms'])
+        if (on & ~may).any():
+            f, c = np.argwhere(on & ~may)[0]
+            return ('length_ms onset at frame %d pitch %d lies outside [note start, min(note end, start + onset_length_ms = %r ms)) of every note '
+                    'of that pitch' % (f, c + minp, kw['onset_length_ms']))
+        if ((pr.onset_velocities > 0) & ~on).any():
+            return 'onset velocity without onset'
+    if kw['onset_mode'] == 'window':
+        w = kw['onset_window']
+        must[:] = False
+        may[:] = False
+        for p, v, s, e in inrange:
+            so = {a for a, _ in span_options((F(s) + d) * fps, (F(e) + d) * fps, thr)}
             if F(s) + d < 0:
                 so = so | {math.ceil((F(s) + d) * fps)}    # int() truncates toward zero before frame 0
             for a in so:
@@ -700,6 +904,9 @@ def _pow2(q):
     return q > 0 and q.numerator & (q.numerator - 1) == 0 and q.denominator & (q.denominator - 1) == 0
 
 
+DEC_COVER = collections.Counter()
+
+
 def oracle_dec(sl, case):
     kw = dec_kw(case)
     if not case['frames'] or not case['fps'] or case['w'] > 128 or case['fps'] < 0:
@@ -719,6 +926,19 @@ def oracle_dec(sl, case):
     exact_rate = _pow2(fps)
     u = F(1, 2**53)
     segs = spec_segments(case)
+    # "drops ONLY notes shorter than min_duration_ms", judged on the note times the function itself REPORTS: the same
+    # roll decoded with min_duration_ms = 0 gives every run with its start / end time; a run must be kept iff the
+    # duration of that note, (end_time - start_time) * 1000 in binary64 (the documented formula, harness/meta/C18.json),
+    # is >= min_duration_ms, and a kept note must carry exactly the times / velocity it has without the threshold.
+    ref = {}
+    if mind > 0:
+        try:
+            ns0 = dec_call(sl, dict(case, kw=dict(case.get('kw', {}), min_duration_ms=0)))
+            for nt in ns0.notes:
+                i, j = math.floor(F(nt.start_time) * fps + F(1, 2)), math.floor(F(nt.end_time) * fps + F(1, 2))
+                ref[(nt.pitch - kw['min_midi_pitch'], i, j)] = nt
+        except Exception as e:  # pylint: disable=broad-except
+            return 'unexpected %s with min_duration_ms = 0: %s' % (type(e).__name__, e)
     got = {}
     for nt in ns.notes:
         xs, xe = F(nt.start_time) * fps, F(nt.end_time) * fps
@@ -737,6 +957,24 @@ def oracle_dec(sl, case):
         else:
             keep_if = mind <= (1 - u) ** 3 * (F(e - s) - F(e + s) * u) * 1000 / fps
             drop_if = (1 + u) ** 3 * (F(e - s) + F(e + s) * u) * 1000 / fps < mind
+        r0 = ref.get((c, s, e))
+        if r0 is not None:
+            rep_ms = (r0.end_time - r0.start_time) * 1000          # binary64, as a caller computes the note's duration
+            exact_ms = (F(r0.end_time) - F(r0.start_time)) * 1000
+            want = rep_ms >= kw['min_duration_ms']
+            DEC_COVER['reported duration %s min_duration_ms' % ('==' if rep_ms == kw['min_duration_ms'] else '<' if not want else '>')] += 1
+            if (exact_ms >= mind) != want:
+                DEC_COVER['binary64 duration and exact duration of the reported times fall on different sides'] += 1
+            if present != want:
+                return ('run pitch %d frames [%d,%d): the note reported without threshold is %r..%r, i.e. (end - start) * 1000 = %r ms '
+                        '(exact difference of the two doubles minus the threshold: %.3g ms), min_duration_ms = %r: %s but must be %s' % (
+                            c, s, e, r0.start_time, r0.end_time, rep_ms, float(exact_ms - mind), kw['min_duration_ms'],
+                            'kept' if present else 'DROPPED', 'kept' if want else 'dropped'))
+            if present:
+                g = got[(c, s, e)]
+                if (g.start_time, g.end_time, g.velocity) != (r0.start_time, r0.end_time, r0.velocity):
+                    return 'run pitch %d frames [%d,%d): min_duration_ms = %r changed the note itself (%r..%r vel %d, without threshold %r..%r vel %d)' % (
+                        c, s, e, kw['min_duration_ms'], g.start_time, g.end_time, g.velocity, r0.start_time, r0.end_time, r0.velocity)
         if keep_if and not present:
             return 'run pitch %d frames [%d,%d) (%s ms) has no note, min_duration_ms = %r' % (c, s, e, float(dur), kw['min_duration_ms'])
         if drop_if and present:
@@ -834,8 +1072,8 @@ def oracle_rt_roll(sl, case):
     full = dict(case, frames=frames, kw={'min_midi_pitch': case['min_pitch']})
     try:
         ns = dec_call(sl, full)
-        pr = sl.sequence_to_pianoroll(ns, case['fps'], case['min_pitch'], case['min_pitch'] + w - 1,
-                                      min_frame_occupancy_for_label=case.get('occ', 0.0))
+        pr = pure_call(case, sl.sequence_to_pianoroll, ns, case['fps'], case['min_pitch'], case['min_pitch'] + w - 1,
+                       min_frame_occupancy_for_label=case.get('occ', 0.0))
     except Exception as e:  # pylint: disable=broad-except
         return 'unexpected %s: %s' % (type(e).__name__, e)
     act = pr.active > 0
@@ -875,7 +1113,7 @@ def oracle_rt_notes(sl, case):
     """encode then decode gives back the grid notes (pitch, start, end)."""
     try:
         pr = enc_call(sl, case)
-        ns = sl.pianoroll_to_note_sequence(pr.active, case['fps'], 0, min_midi_pitch=case['min_pitch'])
+        ns = pure_call(case, sl.pianoroll_to_note_sequence, pr.active, case['fps'], 0, min_midi_pitch=case['min_pitch'])
     except Exception as e:  # pylint: disable=broad-except
         return 'unexpected %s: %s' % (type(e).__name__, e)
     a = sorted((p, s, e) for p, _, s, e in case['notes'])
@@ -886,7 +1124,118 @@ def oracle_rt_notes(sl, case):
     return None
 
 
-ORACLES = {'enc': oracle_enc, 'dec': oracle_dec, 'ons': oracle_ons, 'rt_roll': oracle_rt_roll, 'rt_notes': oracle_rt_notes}
+def shrink(sl, c):
+    """a smaller input on which the same oracle still fails (a single note / a single pitch column), else the input itself"""
+    try:
+        if c['kind'] == 'enc' and len(c['notes']) > 1:
+            for nt in c['notes']:
+                c2 = dict(c, notes=[nt], ccs=[])
+                if oracle_enc(sl, c2):
+                    return c2
+            notes = list(c['notes'])
+            i = 0
+            while i < len(notes) and len(notes) > 1:
+                c2 = dict(c, notes=notes[:i] + notes[i + 1:])
+                if oracle_enc(sl, c2):
+                    notes = c2['notes']
+                else:
+                    i += 1
+            return dict(c, notes=notes)
+        if c['kind'] == 'dec' and c['w'] > 1 and c['frames']:
+            for col in range(c['w']):
+                c2 = dict(c, w=1, kw=dict(c.get('kw', {})))
+                for key in ('frames', 'onsets', 'offsets', 'vels'):
+                    if c.get(key) is not None:
+                        c2[key] = [[row[col]] for row in c[key]]
+                if oracle_dec(sl, c2):
+                    n = len(c2['frames'])
+                    while n > 1:
+                        c3 = dict(c2)
+                        for key in ('frames', 'onsets', 'offsets', 'vels'):
+                            if c2.get(key) is not None:
+                                c3[key] = c2[key][:n - 1]
+                        if not oracle_dec(sl, c3):
+                            break
+                        c2, n = c3, n - 1
+                    return c2
+    except Exception:  # pylint: disable=broad-except
+        pass
+    return c
+
+
+def _canon(kind, out):
+    return enc_line(out) if kind == 'enc' else notes_line(out) + ' | ' + out.SerializeToString(deterministic=True).hex()
+
+
+def _scribble(kind, out):
+    """what a caller post-processing ITS result does: every roll rewritten in place / the NoteSequence edited"""
+    if kind == 'enc':
+        for a in out:
+            a[...] = a * 0.5 + 3
+    else:
+        for nt in out.notes:
+            nt.pitch, nt.velocity, nt.start_time, nt.end_time = 1, 2, nt.start_time + 1.0, nt.end_time + 2.0
+        out.notes.add(pitch=9, velocity=9, start_time=0.0, end_time=99.0)
+        out.total_time += 5.0
+
+
+def oracle_history(sl, h):
+    """call history in one process: case A, its result rewritten in place, (another case B of the same function,) case A
+    again with equal arguments - the second answer for A must be the first one (as it was before it was rewritten), be made
+    of new objects, and share no memory with the first; judged by comparing the function with itself, so it only speaks
+    about state carried between calls (memoised results, defaults written in place, buffers reused)"""
+    a, b = h['a'], h.get('b')
+    kind = a['kind']
+    call = {'enc': enc_call, 'dec': dec_call, 'ons': ons_call}[kind]
+    try:
+        r1 = call(sl, a)
+    except Exception as e1:  # pylint: disable=broad-except
+        r1, err1 = None, type(e1).__name__
+    else:
+        err1 = None
+    line1 = _canon(kind, r1) if r1 is not None else 'err ' + err1
+    if r1 is not None:
+        _scribble(kind, r1)
+    if b is not None:
+        try:
+            rb = call(sl, b)
+            _scribble(kind, rb)
+        except Exception:  # pylint: disable=broad-except
+            pass
+    try:
+        r2 = call(sl, a)
+    except Exception as e2:  # pylint: disable=broad-except
+        r2, line2 = None, 'err ' + type(e2).__name__
+    else:
+        line2 = _canon(kind, r2)
+    if line1 != line2:
+        i = next((k for k, (x, y) in enumerate(zip(line1, line2)) if x != y), min(len(line1), len(line2)))
+        return ('the same arguments gave a different result the second time (first result rewritten in place%s in between): '
+                'first %s…, second %s…' % (', another call' if b is not None else '', line1[max(0, i - 40):i + 60], line2[max(0, i - 40):i + 60]))
+    if r1 is not None and r2 is not None:
+        if r2 is r1:
+            return 'the second call returned the very object the first call returned'
+        if kind == 'enc':
+            for n1, x in zip(r1._fields, r1):
+                for n2, y in zip(r2._fields, r2):
+                    if x is y or (x.size and y.size and np.shares_memory(x, y)):
+                        return 'roll %s of the second call shares memory with roll %s of the first call' % (n2, n1)
+            for i, x in enumerate(r2):
+                for j, y in enumerate(r2):
+                    if i < j and x.size and np.shares_memory(x, y):
+                        return 'rolls %s and %s of one result share memory' % (r2._fields[i], r2._fields[j])
+    return None
+
+
+def oracle_purity(sl, h):
+    n0 = len(IMPURE)
+    c = h['case']
+    ORACLES[c['kind']](sl, c)
+    return IMPURE[n0][0] if len(IMPURE) > n0 else None
+
+
+ORACLES = {'enc': oracle_enc, 'dec': oracle_dec, 'ons': oracle_ons, 'rt_roll': oracle_rt_roll, 'rt_notes': oracle_rt_notes,
+           'history': oracle_history, 'purity': oracle_purity}
 REQUEST = {'enc': enc_request, 'dec': dec_request, 'ons': ons_request}
 IMPL = {'enc': enc_impl, 'dec': dec_impl, 'ons': ons_impl}
 
@@ -895,7 +1244,8 @@ IMPL = {'enc': enc_impl, 'dec': dec_impl, 'ons': ons_impl}
 P, E, FL, DC, EC = ('NoteSeqVerif.Props.C18', 'NoteSeqVerif.Proofs.C18Enc', 'NoteSeqVerif.Proofs.C18Float',
                      'NoteSeqVerif.Proofs.C18Dec', 'NoteSeqVerif.Proofs.C18EncC')
 ED, ON, PB = 'NoteSeqVerif.Proofs.C18EncD', 'NoteSeqVerif.Proofs.C18Ons', 'NoteSeqVerif.Props.C18B'
-MODULES = [FL, E, EC, DC, P, ED, ON, PB]
+PC = 'NoteSeqVerif.Props.C18C'
+MODULES = [FL, E, EC, DC, P, ED, ON, PB, PC]
 THEOREMS = [
     # float layer: no drift for every rounding operator with the IEEE properties, every fps > 0, k < 2^31
     (FL, 'NSV.C18.rounding_id'), (FL, 'NSV.C18.grid_near'), (FL, 'NSV.C18.timeToFrames_grid'),
@@ -936,6 +1286,11 @@ THEOREMS = [
     # 2^-53-relative margins for every Rounding R
     (PB, 'NSV.C18.dec_drops_exactly'), (PB, 'NSV.C18.keepR_exact'), (PB, 'NSV.C18.dec_drops_exact_id'),
     (PB, 'NSV.C18.keepR_float_kept'), (PB, 'NSV.C18.keepR_float_dropped'),
+    # the decision is the binary64 duration of the REPORTED note; min_frame_occupancy_for_label in exact arithmetic:
+    # first frame, last frame right after it (documented meaning), last frame of longer notes (never removed), and the
+    # three-frame scenario in closed form
+    (PC, 'NSV.C18.keepR_reported'), (PC, 'NSV.C18.framesFromTimes_id'), (PC, 'NSV.C18.occ_first_frame'),
+    (PC, 'NSV.C18.occ_last_frame_adjacent'), (PC, 'NSV.C18.occ_last_frame_far'), (PC, 'NSV.C18.occ_three_frames'),
 ]
 
 
@@ -976,9 +1331,21 @@ def run(chk):
     for _ in range(chk.n(1500, 40000)):
         c, h = gen_enc_case(rng)
         cases.append(('enc', c, h))
+    rng = chk.subrng('enc-scenarios')
+    for _ in range(chk.n(400, 8000)):
+        c, h = gen_occ_case(rng) if rng.random() < 0.5 else gen_onset_len_case(rng)
+        cases.append(('enc', c, h))
     rng = chk.subrng('dec')
     for _ in range(chk.n(1500, 40000)):
         c, h = gen_dec_case(rng)
+        cases.append(('dec', c, h))
+    rng = chk.subrng('mindur')
+    for fps in FPS:
+        for k in range(1, 57):            # every run length at every rate of the quantifier, threshold = nominal length
+            c, h = mindur_case(rng, int(fps) if float(fps).is_integer() and k % 2 else float(fps), k)
+            cases.append(('dec', c, h))
+    for _ in range(chk.n(300, 6000)):
+        c, h = mindur_case(rng, gen_fps(rng, extra=0.15), rng.randrange(1, 64), 'varied')
         cases.append(('dec', c, h))
     rng = chk.subrng('ons')
     for _ in range(chk.n(400, 8000)):
@@ -994,6 +1361,16 @@ def run(chk):
             deep = i % 25 == 0
             cases.append(('rt', gen_rt_roll(rng, fps, deep), {'fps:%s' % fps} | ({'deep'} if deep else set())))
             cases.append(('rt', gen_rt_notes(rng, fps, deep), {'fps:%s' % fps} | ({'deep'} if deep else set())))
+
+    # call histories (oracle only; the model is a pure function): every corpus case and every 6th generated case is called,
+    # its result rewritten in place, optionally another case of the same function is called, then the first case again
+    rng = chk.subrng('history')
+    base = [(i, c) for i, (_, c, _) in enumerate(cases) if c['kind'] in REQUEST]
+    for j, (i, c) in enumerate(base):
+        if cases[i][0] == 'corpus' or j % 6 == 0:
+            nxt = base[j + 1][1] if j + 1 < len(base) and base[j + 1][1]['kind'] == c['kind'] and rng.random() < 0.5 else None
+            cases.append(('history', {'kind': 'history', 'a': c, **({'b': nxt} if nxt is not None else {})},
+                          {'A, scribble, A' if nxt is None else 'A, scribble, B, scribble, A', 'fn:' + c['kind']}))
 
     # correspondence: every enc/dec/ons request, plus both legs of every round trip
     reqs, impls, meta = [], [], []
@@ -1037,12 +1414,25 @@ def run(chk):
 
     # oracle on the implementation (independent of the model)
     for stream, c, h in cases:
-        chk.count('oracle-' + c['kind'], None)
+        chk.count('oracle-' + c['kind'], None, False, sorted(h) if c['kind'] == 'history' else None)
         r = ORACLES[c['kind']](sl, c)
         if r:
-            chk.fail(r, c)
+            c2 = shrink(sl, c)
+            chk.fail(ORACLES[c2['kind']](sl, c2) or r, c2)
             if len(chk.failures) > 20:
                 break
+    for text, c in IMPURE[:5]:
+        chk.fail(text, {'kind': 'purity', 'case': c})
+    chk.count('oracle-purity', None, False, 'every call of the run: arguments compared before/after (%s)' % ('no change' if not IMPURE else 'CHANGED'))
+    del IMPURE[:]
+    for k_, v_ in DEC_COVER.items():
+        st = chk.stream('oracle-dec')
+        st['hist'][k_] = st['hist'].get(k_, 0) + v_
+    DEC_COVER.clear()
+    for k_, v_ in ENC_COVER.items():
+        st = chk.stream('oracle-enc')
+        st['hist'][k_] = st['hist'].get(k_, 0) + v_
+    ENC_COVER.clear()
 
 
 def replay(chk, obj):
